@@ -173,7 +173,7 @@ def lag_conformance(ctx, behaviours, rng):
         # (partitions are not part of MasterLag.tla)
         hists.append([(('DeleteServer', e[1]) if e[0] == 'EmptyServer' else e) for e in gen_stale(scn, rng)
                       if e[0] not in ('SetPartition', 'DetachRack')])
-    traces = mc.record('lag', hists)
+    traces = mc.record('lag', hists, slim=True)
     verdicts, stats = mc.validate_lag(traces)
     ctx.cmds.append(stats['cmd'])
     total = sum(len(t['lines']) - 1 for t in traces)
@@ -439,7 +439,7 @@ def run(ctx, prop):
             for hc in all_cuts(h):
                 hist.append((src + '-allcuts', hc))
     ctx.log('%d histories' % len(hist))
-    traces = mc.record('base', [h for _, h in hist])
+    traces = mc.record('base', [h for _, h in hist], slim=True)
     for (src, _), t in zip(hist, traces):
         t['src'] = src
     if prop in ('C11', 'C09'):
@@ -448,12 +448,12 @@ def run(ctx, prop):
         dscn = mc.SCENARIOS['dup']
         dh = [mc.gen_servers(dscn, rng, rng.choice([4, 6])) if k % 2 else mc.gen_allocs(dscn, rng, 3)
               for k in range(40 if ctx.quick else 500)]
-        dt = mc.record('dup', dh)
+        dt = mc.record('dup', dh, slim=True)
         for t in dt:
             t['src'] = 'dup'
         traces += dt
         hh = [mc.gen_hetero(mc.SCENARIOS['hetero'], rng) for _ in range(60 if ctx.quick else 800)]
-        ht = mc.record('hetero', hh)
+        ht = mc.record('hetero', hh, slim=True)
         for t in ht:
             t['src'] = 'hetero'
         traces += ht
